@@ -2,6 +2,8 @@
 //! (linear scan) and vs a walk of the prefix tree with offset-addressed table reads.
 
 use crate::common::{Case, Tally, err_class, viol};
+use cascette_formats::CascFormat;
+use cascette_formats::blte::{BlteFile, CompressionMode};
 use cascette_formats::tvfs::{ContainerEntry, ContainerFileTable, PathTreeNode, TVFS_FLAG_ENCODING_SPEC, TVFS_FLAG_INCLUDE_CKEY, TVFS_FLAG_PATCH_SUPPORT, TvfsBuilder, TvfsFile, VfsTable};
 use serde_json::{Value, json};
 use std::collections::{BTreeMap, BTreeSet};
@@ -144,7 +146,7 @@ pub fn run(ctx: &Ctx, case: &Case, t: &mut Tally) {
     let est_specs = case.u("est_specs");
     let est_len = case.u("est_spec_len").max(1);
     let paths = gen_paths(&mut rng, &shape, n, long_name);
-    let mut builder = TvfsBuilder::with_flags(flags);
+    let mut builder = if flags == TVFS_FLAG_INCLUDE_CKEY && case.idx % 2 == 1 { TvfsBuilder::new() } else { TvfsBuilder::with_flags(flags) };
     let mut est_bytes = 0usize;
     for i in 0..est_specs {
         let mut s = format!("b:{{{i}K*=z}}");
@@ -214,6 +216,72 @@ pub fn run(ctx: &Ctx, case: &Case, t: &mut Tally) {
             return;
         }
     };
+    if !verify_tvfs(ctx, case, t, &mut rng, &parsed, &model, &paths, &cause, "", &info) {
+        return;
+    }
+    t.o("tvfs.files_inserted", n as u64);
+    t.o(&format!("tvfs.shape.{shape}"), 1);
+    t.o(&format!("tvfs.flags.{flags:#x}"), 1);
+    if ctx.want_sample() && n >= 10 && shape == "shared" {
+        ctx.sample(json!({"family":"tvfs","params":case.params,"info":info,"example_path":paths[0]}));
+    }
+    if case.idx % TVFS_EXT_EVERY == 0 {
+        extend_tvfs(ctx, case, t, &mut rng, &bytes, &parsed, &model, &paths, &cause, &info);
+    }
+}
+
+/// Every `TVFS_EXT_EVERY`-th manifest is also loaded through the alternative entry points.
+const TVFS_EXT_EVERY: u64 = 2;
+
+/// Coverage-driven extension: the same manifest through `TvfsFile::load_from_blte` (BLTE container written by the
+/// repository's BLTE encoder: raw / zlib / LZ4, one or several chunks), through the `CascFormat` parse/build/parse
+/// chain and through `TvfsFile::build` of the parsed manifest; every one must resolve exactly the inserted paths.
+#[allow(clippy::too_many_arguments)]
+fn extend_tvfs(ctx: &Ctx, case: &Case, t: &mut Tally, rng: &mut Rng, bytes: &[u8], parsed: &TvfsFile, model: &BTreeMap<String, FileVal>, paths: &[String], cause: &str, info: &Value) {
+    let sel = (case.idx / TVFS_EXT_EVERY) % 3;
+    let (ph, r): (&str, Result<TvfsFile, String>) = match sel {
+        0 => {
+            let mode = match rng.below(3) {
+                0 => CompressionMode::None,
+                1 => CompressionMode::ZLib,
+                _ => CompressionMode::LZ4,
+            };
+            let chunk = match rng.below(3) {
+                0 => bytes.len().max(1),
+                1 => (bytes.len() / 3).max(1),
+                _ => rng.urange(16, 4096),
+            };
+            let blte = BlteFile::compress(bytes, chunk, mode).map_err(|e| format!("blte-encode:{e}")).and_then(|b| <BlteFile as CascFormat>::build(&b).map_err(|e| format!("blte-encode:{e}")));
+            t.o(&format!("tvfs.ext.load_from_blte.{mode:?}"), 1);
+            // the container itself is C01's subject: only containers the independent decoder reads back are used
+            let blte = blte.and_then(|b| match vh::refimpl::blte::decode(&b, &|_| None) {
+                Ok(d) if d.content() == bytes => Ok(b),
+                _ => Err("blte-encode:container does not decode to the manifest with the reference decoder".to_string()),
+            });
+            ("load_from_blte|", blte.and_then(|b| TvfsFile::load_from_blte(&b).map_err(|e| format!("{}", err_class(&e)))))
+        }
+        1 => {
+            t.o("tvfs.ext.casc_format_roundtrips", 1);
+            ("CascFormat|", <TvfsFile as CascFormat>::parse(bytes).and_then(|p| <TvfsFile as CascFormat>::build(&p)).and_then(|b| <TvfsFile as CascFormat>::parse(&b)).map_err(|e| e.to_string()))
+        }
+        _ => {
+            t.o("tvfs.ext.rebuilds", 1);
+            ("TvfsFile::build|", parsed.build().map_err(|e| err_class(&e)).and_then(|b| TvfsFile::parse(&b).map_err(|e| err_class(&e))))
+        }
+    };
+    match r {
+        Ok(p) => {
+            verify_tvfs(ctx, case, t, rng, &p, model, paths, cause, ph, info);
+        }
+        Err(e) if e.starts_with("blte-encode:") => t.o("tvfs.ext.blte_encoder_refused", 1),
+        Err(e) => viol(ctx, case, &format!("C03|tvfs|{ph}built-output-misparsed|{cause}"), "an alternative load / re-serialisation path rejects a TvfsBuilder-produced manifest", json!({"error": e, "info": info})),
+    }
+}
+
+/// Level 1 (flattened file list == inserted) and level 2 (resolve_path, tree walk with offset-addressed reads,
+/// enumerate_files vs the model) on one parsed manifest; `ph` names the path that produced it.
+#[allow(clippy::too_many_arguments)]
+fn verify_tvfs(ctx: &Ctx, case: &Case, t: &mut Tally, rng: &mut Rng, parsed: &TvfsFile, model: &BTreeMap<String, FileVal>, paths: &[String], cause: &str, ph: &str, info: &Value) -> bool {
     // level 1: flattened file list (linear scan) == inserted
     let mut scan: BTreeMap<String, Vec<Option<FileVal>>> = BTreeMap::new();
     for f in &parsed.path_table.files {
@@ -224,11 +292,11 @@ pub fn run(ctx: &Ctx, case: &Case, t: &mut Tally) {
     if !same {
         let first = model.iter().find(|(p, v)| scan.get(*p).is_none_or(|s| s.len() != 1 || s[0].as_ref() != Some(*v))).map(|(p, _)| p.clone());
         let extra = scan.keys().find(|p| !model.contains_key(*p)).cloned();
-        viol(ctx, case, &format!("C03|tvfs|built-output-misparsed|{cause}"), "files of the parsed TVFS manifest differ from what was inserted", json!({"first_differing_path": first.as_ref().map(|p| vh::hex_short(p.as_bytes(), 40)), "inserted": first.as_ref().and_then(|p| model.get(p)).map(|v| format!("{v:?}")), "parsed": first.as_ref().and_then(|p| scan.get(p)).map(|v| format!("{v:?}")), "extra_path": extra.map(|p| vh::hex_short(p.as_bytes(), 40)), "parsed_files": parsed.path_table.files.len(), "info": info}));
-        return;
+        viol(ctx, case, &format!("C03|tvfs|{ph}built-output-misparsed|{cause}"), "files of the parsed TVFS manifest differ from what was inserted", json!({"first_differing_path": first.as_ref().map(|p| vh::hex_short(p.as_bytes(), 40)), "inserted": first.as_ref().and_then(|p| model.get(p)).map(|v| format!("{v:?}")), "parsed": first.as_ref().and_then(|p| scan.get(p)).map(|v| format!("{v:?}")), "extra_path": extra.map(|p| vh::hex_short(p.as_bytes(), 40)), "parsed_files": parsed.path_table.files.len(), "info": info}));
+        return false;
     }
     // level 2
-    let mut probes: Vec<String> = paths.clone();
+    let mut probes: Vec<String> = paths.to_vec();
     let stride = (paths.len() / 300).max(1);
     for p in paths.iter().step_by(stride) {
         let comps: Vec<&str> = p.split('/').collect();
@@ -267,7 +335,7 @@ pub fn run(ctx: &Ctx, case: &Case, t: &mut Tally) {
                 (false, true) => "absent-path-found",
                 _ => "wrong-value",
             };
-            viol(ctx, case, &format!("C03|tvfs|resolve_path|{rel}|{cause}"), "resolve_path disagrees with the inserted files", json!({"path": vh::hex_short(p.as_bytes(), 60), "expected": expect.map(|v| format!("{v:?}")), "got": got.map(|v| format!("{v:?}")), "info": info}));
+            viol(ctx, case, &format!("C03|tvfs|{ph}resolve_path|{rel}|{cause}"), "resolve_path disagrees with the inserted files", json!({"path": vh::hex_short(p.as_bytes(), 60), "expected": expect.map(|v| format!("{v:?}")), "got": got.map(|v| format!("{v:?}")), "info": info}));
         }
         if tree_val.as_ref() != expect {
             let rel = match (expect.is_some(), tree_val.is_some()) {
@@ -275,18 +343,16 @@ pub fn run(ctx: &Ctx, case: &Case, t: &mut Tally) {
                 (false, true) => "absent-path-found",
                 _ => "wrong-value",
             };
-            viol(ctx, case, &format!("C03|tvfs|tree-walk+read_entry_at|{rel}|{cause}"), "prefix-tree walk with offset-addressed VFS/CFT reads disagrees with the inserted files", json!({"path": vh::hex_short(p.as_bytes(), 60), "expected": expect.map(|v| format!("{v:?}")), "got": tree_val.map(|v| format!("{v:?}")), "info": info}));
+            viol(ctx, case, &format!("C03|tvfs|{ph}tree-walk+read_entry_at|{rel}|{cause}"), "prefix-tree walk with offset-addressed VFS/CFT reads disagrees with the inserted files", json!({"path": vh::hex_short(p.as_bytes(), 60), "expected": expect.map(|v| format!("{v:?}")), "got": tree_val.map(|v| format!("{v:?}")), "info": info}));
         }
     }
     let enumerated = parsed.enumerate_files().filter(|(_, ve)| ve.is_some()).count();
-    if enumerated != model.len() {
-        viol(ctx, case, &format!("C03|tvfs|enumerate_files|count!=inserted|{cause}"), "enumerate_files yields a different number of resolvable files", json!({"expected": model.len(), "got": enumerated, "info": info}));
+    if enumerated != model.len() || parsed.path_table.file_count() != model.len() {
+        viol(ctx, case, &format!("C03|tvfs|{ph}enumerate_files|count!=inserted|{cause}"), "enumerate_files yields a different number of resolvable files", json!({"expected": model.len(), "got": enumerated, "file_count": parsed.path_table.file_count(), "info": info}));
     }
     t.o("tvfs.lookups", lookups);
-    t.o("tvfs.files_inserted", n as u64);
-    t.o(&format!("tvfs.shape.{shape}"), 1);
-    t.o(&format!("tvfs.flags.{flags:#x}"), 1);
-    if ctx.want_sample() && n >= 10 && shape == "shared" {
-        ctx.sample(json!({"family":"tvfs","params":case.params,"info":info,"probes":probes.len(),"example_path":paths[0]}));
+    if !ph.is_empty() {
+        t.o(&format!("tvfs.{}lookups", ph.replace('|', ".")), lookups);
     }
+    true
 }
